@@ -251,6 +251,20 @@ Section Refine.
     rewrite N.add_mod_idemp_l by (apply N.pow_nonzero; lia). reflexivity.
   Qed.
 
+  Lemma open_next13 : forall bs c v fresh r, bs <> [] -> (fresh = true -> 2 <= length bs) ->
+    let ph' := trk_next (POpen bs c v fresh) r in
+    n_fwd ph' = n_fwd (POpen bs c v fresh) + (if fresh then 1 else 0) /\
+    firstn (n_fwd ph') (ph_bytes ph') = firstn (n_fwd ph') bs /\
+    match ph' with PReport _ _ _ | PIdle => False | _ => True end.
+  Proof.
+    intros bs c v fresh r Hne Hfr. assert (L : 1 <= length bs) by (destruct bs; [congruence | cbn [length]; lia]).
+    unfold trk_next. destruct (negb (r_valid r)); [|destruct (r_next r)]; cbn [n_fwd ph_bytes].
+    - destruct fresh; [specialize (Hfr eq_refl)|]; repeat split; lia.
+    - rewrite app_length. cbn [length]. destruct fresh; [specialize (Hfr eq_refl)|]; repeat split; try lia.
+      all: rewrite firstn_snoc_le by lia; reflexivity.
+    - destruct fresh; [specialize (Hfr eq_refl)|]; repeat split; lia.
+  Qed.
+
   Lemma R_step : forall m s i, R m s -> ss_env mps s i = true ->
     R (so_next mps depth m i) (ss_next mps depth s i).
   Proof.
@@ -312,7 +326,120 @@ Section Refine.
         split; [reflexivity|]. split; [constructor|]. split; [exact HQ1|].
         split; [intros _; lia|]. split; [exact I|]. split; [intro; lia|]. split; [intro; lia|].
         split; [lia|]. split; [exact Hpl|]. intros _ H0; lia.
-    - admit.
+    - (* a packet is open *)
+      destruct Hbd as (Hf & Hne & Hbuf & Hisf & Hbc & Hbi & Hoc & Hoi & Hol & Hon & Hval2 & Hnv & Hfr).
+      assert (L : 1 <= length bs) by (destruct bs; [congruence | cbn [length]; lia]).
+      destruct Hph as (Hhc & Hhf & Hyoung).
+      apply andb_true_iff in Henv as [Henv He]. apply andb_true_iff in Henv as [Henv Hnew'].
+      apply andb_true_iff in Henv as [Henv _]. apply andb_true_iff in Henv as [Hxt _]. apply eqb_prop in Hxt.
+      destruct (open_next13 bs c v fresh (u_rx i) Hne (fun E => proj1 (Hfr E))) as (Hn' & Hfn' & Hnr).
+      cbn [ph_bytes strobes] in *.
+      rewrite Hf, ?andb_false_r. cbn [orb andb].
+      assert (Hst : ss_stored s i = ss_okay s i && negb (ss_held s =? depth)) by reflexivity.
+      assert (Hln : ss_lost_now s i = ss_okay s i && (ss_held s =? depth)) by reflexivity.
+      (* a second "new packet" pulse of the gateware (first cycle of the packet) finds the flags already clear *)
+      assert (Hnp : k_newpkt (so_sig mps depth m i) = false \/ (lost = false /\ full = false /\ fresh = false)).
+      { unfold so_sig. cbn [k_newpkt]. destruct Hval as [Hv2 Hv0]. destruct (o_valid (out (n_bd m))) eqn:Ev.
+        - left. apply andb_false_r.
+        - right. specialize (Hv0 eq_refl). assert (length bs = 1) by (destruct (Nat.le_gt_cases 2 (length bs)) as [G|G];
+            [specialize (Hv2 G); discriminate | lia]).
+          destruct (Hyoung H). repeat split; assumption. }
+      assert (HB : match trk_next (POpen bs c v fresh) (u_rx i) with
+                   | POpen bs' _ _ _ => (if r_valid (u_rx i) && r_next (u_rx i) then Nat.min (S (h_cnt m)) (S mps) else h_cnt m)
+                                        = Nat.min (length bs') (S mps) /\ (length bs' = 1 -> length bs = 1 /\ fresh = false)
+                   | _ => True end /\
+                   Forall (fun b => (b < 256)%N) (ph_bytes (trk_next (POpen bs c v fresh) (u_rx i))) /\
+                   (tgt = true -> length (ph_bytes (trk_next (POpen bs c v fresh) (u_rx i))) <= mps) /\
+                   match trk_next (POpen bs c v fresh) (u_rx i) with
+                   | PEnded _ c' v' | PReport _ c' v' => tgt = true -> xorb c' v' = true
+                   | _ => True end).
+      { unfold trk_next. destruct (r_valid (u_rx i)) eqn:Erv; cbn [negb andb]; [destruct (r_next (u_rx i)) eqn:Ern|];
+          cbn [ph_bytes].
+        - split; [split; [rewrite Hhc, app_length; cbn [length]; lia | rewrite app_length; cbn [length]; intro; lia]|].
+          split; [apply Forall_app; split; [assumption | repeat constructor; assumption]|].
+          split; [|exact I]. intro Et. rewrite Et in He. cbn [negb] in He. apply Nat.ltb_lt in He.
+          rewrite app_length. cbn [length]. lia.
+        - split; [split; [exact Hhc | intro E1; split; [exact E1|]; destruct fresh; [destruct (Hfr eq_refl); lia | reflexivity]]|].
+          split; [exact Hby|]. split; [exact Hlen | exact I].
+        - split; [exact I|]. split; [exact Hby|]. split; [exact Hlen|].
+          intro Et. rewrite Et in He. exact He. }
+      destruct HB as (HB1 & HB2 & HB3 & HB4).
+      set (ph' := trk_next (POpen bs c v fresh) (u_rx i)) in *.
+      destruct fresh.
+      + (* a byte is forwarded *)
+        destruct (Hfr eq_refl) as (H2 & _). clear Hfr Hnv Hval2 Hyoung.
+        destruct Hnp as [Hnp | (_ & _ & Hx0)]; [|discriminate]. rewrite Hnp.
+        cbn [fwd n_fwd] in *. rewrite ?andb_false_r. cbn [orb andb].
+        specialize (Hok eq_refl).
+        assert (Hoky : ss_okay s i = if length bs =? 2 then u_tgt i && ss_match s i else new) by reflexivity.
+        split; [reflexivity|]. split; [reflexivity|]. split; [reflexivity|]. split; [reflexivity|].
+        split; [reflexivity|]. split; [reflexivity|]. split; [reflexivity|].
+        split; [destruct (length bs =? 2); [rewrite Hok, Hoky|]; reflexivity|].
+        split.
+        { destruct ph' as [|bs' c' v' fr'|bs' c' v'|bs' c' v']; try exact I; try contradiction.
+          - destruct HB1 as [HB1 HB1']. split; [exact HB1|]. split; [rewrite Hhf, Hn'; cbn [is_some]; rewrite orb_true_r; symmetry; apply Nat.ltb_lt; lia|].
+            intro E1. destruct (HB1' E1) as [_ Hx0]. discriminate.
+          - rewrite Hhf, Hn'. cbn [is_some]. rewrite orb_true_r. symmetry. apply Nat.ltb_lt. lia. }
+        split; [destruct (ss_stored s i); [apply cnt_succ | reflexivity]|].
+        split; [exact HB2|]. split; [exact HQ1|]. split; [exact HB3|]. split; [exact HB4|].
+        split.
+        { intros _. destruct (Nat.eqb_spec (length bs) 2) as [E2|E2].
+          - intro H. apply andb_true_iff in H as [H _]. congruence.
+          - apply Hnt. lia. }
+        split; [destruct (ss_stored s i) eqn:Es; [intros _; exact (proj1 (Hsf eq_refl)) | exact Hnn]|].
+        split; [rewrite Hn'; destruct (ss_stored s i); lia|].
+        split; [rewrite app_length, Hpl; destruct (ss_stored s i); cbn [length]; lia|].
+        intros Hl' _.
+        assert (Hl0 : ss_lost_now s i = false /\ lost = false)
+          by (destruct (ss_lost_now s i); [discriminate | split; [reflexivity | exact Hl']]).
+        destruct Hl0 as [Hl0 Hlo]. rewrite Hln in Hl0.
+        assert (Hes : ss_okay s i = true -> ss_stored s i = true).
+        { intro Ho. rewrite Hst. rewrite Ho in *. cbn [andb] in *. rewrite Hl0. reflexivity. }
+        assert (Hen : ss_okay s i = false -> ss_stored s i = false) by (intro Ho; rewrite Hst, Ho; reflexivity).
+        assert (Hinner : forall x, t_ph x = ph' -> stored13 x = inner (t_start x) (firstn (n_fwd ph') bs)).
+        { intros x Hx0. unfold stored13. rewrite Hx0. destruct ph'; try contradiction; rewrite Hfn'; reflexivity. }
+        match goal with |- context [stored13 ?x] => rewrite (Hinner x eq_refl) end. rewrite Hn'. cbn [t_start].
+        destruct (Nat.eqb_spec (length bs) 2) as [E2|E2].
+        * (* the packet's first byte *)
+          assert (HP : P = []) by (destruct P; [reflexivity | cbn [length] in Hpl; lia]).
+          rewrite HP in *. cbn [app]. rewrite E2 in *. cbn [Nat.sub Nat.add] in *.
+          destruct (u_tgt i && ss_match s i) eqn:Eo.
+          -- rewrite (Hes Hoky). split; [|intros _; lia].
+             destruct bs as [|a [|b [|]]]; cbn [length] in E2; try lia. cbn [firstn inner map nth Nat.eqb andb]. reflexivity.
+          -- rewrite (Hen Hoky). split; [reflexivity | intro; discriminate].
+        * (* a later byte *)
+          assert (K : 0 < length bs - 2) by lia.
+          destruct (Hpe Hlo K) as [HP HN].
+          destruct new.
+          -- specialize (HN eq_refl).
+             rewrite (Hes Hoky). split; [|intros _; lia].
+             rewrite HP. unfold stored13. cbn [s t_ph t_start n_fwd ph_bytes].
+             replace (length bs - 2 + 1) with (S (length bs - 2)) by lia.
+             rewrite inner_snoc by lia. rewrite map_app. f_equal. cbn [map].
+             assert (E0 : (length bs - 2 =? 0) = false) by (apply Nat.eqb_neq; lia).
+             rewrite E0, andb_false_r, andb_false_l. reflexivity.
+          -- rewrite (Hen Hoky), HP, app_nil_r. split; [reflexivity | intro; discriminate].
+      + (* nothing is forwarded *)
+        assert (Hs0 : ss_stored s i = false) by reflexivity.
+        assert (Hl0 : ss_lost_now s i = false) by reflexivity.
+        rewrite Hs0, Hl0. cbn [fwd n_fwd andb orb] in *. rewrite ?andb_false_r. rewrite Nat.add_0_r in Hn'.
+        rewrite app_nil_r.
+        split; [reflexivity|]. split; [reflexivity|]. split; [reflexivity|].
+        split; [destruct Hnp as [Hnp | (Hlo & _)]; [rewrite Hnp; reflexivity | rewrite Hlo; destruct (k_newpkt _); reflexivity]|].
+        split; [reflexivity|].
+        split; [destruct Hnp as [Hnp | (_ & Hfu & _)]; [rewrite Hnp; reflexivity | rewrite Hfu; destruct (k_newpkt _); reflexivity]|].
+        split; [reflexivity|]. split; [reflexivity|].
+        split.
+        { destruct ph' as [|bs' c' v' fr'|bs' c' v'|bs' c' v']; try exact I; try contradiction.
+          - destruct HB1 as [HB1 HB1']. split; [exact HB1|]. split; [rewrite Hhf, Hn'; cbn [is_some]; apply orb_false_r|].
+            intro E1. destruct (HB1' E1) as [E1b _]. exact (Hyoung E1b).
+          - rewrite Hhf, Hn'. cbn [is_some]. apply orb_false_r. }
+        split; [reflexivity|].
+        split; [exact HB2|]. split; [exact HQ1|]. split; [exact HB3|]. split; [exact HB4|].
+        split; [rewrite Hn'; exact Hnt|]. split; [exact Hnn|]. split; [rewrite Hn'; exact Hnk|]. split; [exact Hpl|].
+        intros Hlo K. rewrite Hn' in K. destruct (Hpe Hlo K) as [HP HN]. split; [|rewrite Hn'; exact HN].
+        rewrite HP. destruct new; [|reflexivity]. f_equal. unfold stored13. cbn [s t_ph t_start].
+        destruct ph'; try contradiction; rewrite Hfn', Hn'; reflexivity.
     - (* the packet ended in the previous cycle: its last byte is forwarded now *)
       destruct Hbd as (Hf & Hne & _).
       assert (L : 1 <= length bs) by (destruct bs; [congruence | cbn [length]; lia]).
@@ -357,20 +484,22 @@ Section Refine.
         destruct (u_tgt i && ss_match s i) eqn:Eo.
         * rewrite (Hes Hoky), (Kfull (Hes Hoky)). cbn [map]. split; [|intros _; lia].
           assert (En : n = 0) by lia. rewrite En.
-          do 3 f_equal. rewrite andb_true_r.
-          destruct (Nat.eqb_spec 0 (mps - 1)), (Nat.ltb_spec 1 mps); try reflexivity; try lia. Show.
+          replace (negb (0 =? mps - 1)) with (1 <? mps)
+            by (destruct (Nat.eqb_spec 0 (mps - 1)), (Nat.ltb_spec 1 mps); try reflexivity; lia).
+          rewrite andb_true_r. reflexivity.
         * rewrite (Hen Hoky). split; [reflexivity | intro; discriminate].
       + (* longer packet *)
         assert (K : 0 < length bs - 1) by lia.
         destruct (Hpe Hlo K) as [HP HN].
-        assert (E1' : (length bs =? 1) = false) by (apply Nat.eqb_neq; exact E1). rewrite E1' in *.
         destruct new.
         * specialize (HN eq_refl). assert (Ht : tgt = true) by (apply Hnt; [exact K | reflexivity]).
           specialize (Hlen Ht).
           rewrite (Hes Hoky), (Kfull (Hes Hoky)). split; [|intros _; lia].
           rewrite HP. unfold stored13. cbn [s t_ph t_start n_fwd ph_bytes]. rewrite map_app. f_equal. cbn [map].
-          do 3 f_equal; [rewrite andb_false_r; reflexivity|]. rewrite HN.
-          destruct (Nat.eqb_spec (length bs - 1) (mps - 1)), (Nat.ltb_spec (length bs) mps); try reflexivity; lia.
+          rewrite HN, andb_false_r.
+          replace (negb (length bs - 1 =? mps - 1)) with (length bs <? mps)
+            by (destruct (Nat.eqb_spec (length bs - 1) (mps - 1)), (Nat.ltb_spec (length bs) mps); try reflexivity; lia).
+          reflexivity.
         * rewrite (Hen Hoky), HP, app_nil_r. split; [reflexivity | intro; discriminate].
     - (* report: the outcome of the packet is acted upon *)
       assert (Hs0 : ss_stored s i = false) by reflexivity.
@@ -421,5 +550,305 @@ Section Refine.
         split; [exact I|]. split; [reflexivity|]. split; [constructor|]. split; [exact HQ1|].
         split; [intros _; lia|]. split; [exact I|]. split; [intro; lia|]. split; [intro; lia|].
         split; [lia|]. split; [reflexivity|]. intros _ H0; lia.
-  Admitted.
+  Qed.
+
+  Theorem so_refines_from : forall ins m s, R m s -> ss_env_ok mps depth s ins = true ->
+    map so_norm (so_run mps depth m ins) = ss_run mps depth s ins.
+  Proof.
+    induction ins as [|i t IH]; intros m s HR HE; [reflexivity|].
+    cbn [ss_env_ok] in HE. apply andb_true_iff in HE as [He Ht].
+    cbn [so_run ss_run map]. rewrite (R_out m s i HR He). f_equal.
+    apply IH; [apply R_step; assumption | exact Ht].
+  Qed.
 End Refine.
+
+Theorem so_refines : forall mps depth, 1 <= mps -> forall ins,
+  ss_env_ok mps depth ss_init ins = true ->
+  map so_norm (so_run mps depth (so_init depth) ins) = ss_run mps depth ss_init ins.
+Proof. intros mps depth H ins HE. apply (so_refines_from mps depth H ins _ _ (R_init mps depth H) HE). Qed.
+
+(* ------------------------------------------------------------------------------------------ *)
+(* Packing facts for the lock-step tie                                                          *)
+Definition so_wf (mps depth : nat) (m : so_state) : Prop :=
+  bd_wf (n_bd m) /\ tf_wf depth 10 (n_ff m) /\ (n_cnt m < 2 ^ cnt_width mps)%N /\ h_cnt m <= S mps.
+
+Lemma so_wf_init : forall mps depth, so_wf mps depth (so_init depth).
+Proof.
+  intros. split; [exact bd_wf_init|]. split; [apply tf_wf_init|]. split; [|cbn; lia].
+  cbn [so_init n_cnt]. apply N.neq_0_lt_0, N.pow_nonzero. lia.
+Qed.
+
+Lemma so_dec_enc : forall mps depth m, so_wf mps depth m -> so_dec mps depth (so_enc mps depth m) = m.
+Proof.
+  intros mps depth [bd ff tg ov cn ac na ht hn hc hf] (Hb & Hf & Hcn & Hc).
+  cbn [n_bd n_ff n_tog n_ovf n_cnt n_act n_nact h_tgt h_new h_cnt h_fwd] in *.
+  unfold so_dec, so_enc. cbn [n_bd n_ff n_tog n_ovf n_cnt n_act n_nact h_tgt h_new h_cnt h_fwd]. cbv zeta.
+  rewrite !land_mod, !shr_div.
+  pose proof (tf_enc2_lt depth ff Hf) as Hlt.
+  assert (Hc' : (N.of_nat hc < 2 ^ hcnt_bits mps)%N).
+  { unfold hcnt_bits. apply N.le_lt_trans with (N.of_nat (S mps)); [lia | apply N.size_gt]. }
+  assert (Ha : forall b : bool, (b2n b < 2 ^ 1)%N) by (intros [|]; cbn; lia).
+  repeat first [rewrite PackN.pk_div by first [apply Ha | assumption]
+               | rewrite PackN.pk_mod by first [apply Ha | assumption]].
+  rewrite !nb_b2n, Nat2N.id, tf_dec_enc2 by assumption. rewrite bd_dec2_eq, bd_dec_enc by assumption. reflexivity.
+Qed.
+
+Lemma so_in_pay : forall ep w, (r_pay (u_rx (so_in_of ep w)) < 256)%N.
+Proof. intros. cbn [so_in_of u_rx r_pay]. apply (bits_lt w 21 8). Qed.
+
+Lemma so_wf_step : forall mps depth ep m w, so_wf mps depth m -> so_wf mps depth (fst (so_mstep mps depth ep m w)).
+Proof.
+  intros mps depth ep m w (Hb & Hf & Hcn & Hc). cbn [so_mstep fst]. unfold so_next, so_wf.
+  cbn [n_bd n_ff n_tog n_ovf n_cnt n_act n_nact h_tgt h_new h_cnt h_fwd]. split; [|split; [|split]].
+  - apply bd_wf_next; [exact Hb | apply so_in_pay].
+  - apply tf_wf_next; [exact Hf|]. unfold so_fifo_in, bd_fwd. cbn [fi_write_data].
+    destruct (o_next (out (n_bd m)) && o_valid (out (n_bd m))); [|cbn; lia].
+    apply enc_entry_lt. cbn [e_data]. exact (proj1 Hb).
+  - assert (P0 : (0 < 2 ^ cnt_width mps)%N) by (apply N.neq_0_lt_0, N.pow_nonzero; lia).
+    destruct (k_commit _ || k_discard _); [exact P0|]. destruct (k_wen _); [|exact Hcn].
+    apply N.mod_lt. lia.
+  - destruct (fsm (n_bd m)); [lia | | exact Hc].
+    destruct (r_valid (u_rx (so_in_of ep w)) && r_next (u_rx (so_in_of ep w))); lia.
+Qed.
+
+Lemma so_mrun : forall mps depth ep tr m,
+  run (so_mstep mps depth ep) m tr
+  = map (fun o => so_out_pack (so_norm o)) ((fix go (m : so_state) (l : list N) : list so_out :=
+       match l with [] => [] | w :: t => so_outf mps depth m (so_in_of ep w) :: go (so_next mps depth m (so_in_of ep w)) t end) m tr).
+Proof.
+  induction tr as [|w t IH]; intro m; [reflexivity|].
+  cbn [run map]. unfold so_mstep at 1. cbv zeta. rewrite IH. reflexivity.
+Qed.
+
+Lemma so_run_map : forall mps depth ep tr m,
+  (fix go (m : so_state) (l : list N) : list so_out :=
+       match l with [] => [] | w :: t => so_outf mps depth m (so_in_of ep w) :: go (so_next mps depth m (so_in_of ep w)) t end) m tr
+  = so_run mps depth m (map (so_in_of ep) tr).
+Proof. induction tr as [|w t IH]; intro m; [reflexivity|]. cbn [map so_run]. rewrite <- IH. reflexivity. Qed.
+
+Lemma so_out_of_pack : forall o, (v_data o < 256)%N -> so_out_of (so_out_pack o) = o.
+Proof.
+  intros [a k v f l d] H. cbn [v_data] in H. unfold so_out_of, so_out_pack. cbn [v_ack v_nak v_valid v_first v_last v_data].
+  assert (T : forall x n, N.testbit x n = N.odd (x / 2 ^ n)).
+  { intros. rewrite <- N.shiftr_div_pow2. unfold N.testbit. rewrite <- N.bit0_odd, N.shiftr_spec by lia.
+    rewrite N.add_0_l. reflexivity. }
+  unfold bits. rewrite N.shiftr_div_pow2, N.land_ones, !T.
+  change (2 ^ 0)%N with 1%N. change (2 ^ 1)%N with 2%N. change (2 ^ 2)%N with 4%N. change (2 ^ 3)%N with 8%N.
+  change (2 ^ 4)%N with 16%N. change (2 ^ 5)%N with 32%N. change (2 ^ 8)%N with 256%N. rewrite N.div_1_r.
+  set (x := (b2n a + 2 * b2n k + 4 * b2n v + 8 * b2n f + 16 * b2n l + 32 * d)%N).
+  assert (B : forall b : bool, (b2n b < 2)%N) by (intros [|]; cbn; lia).
+  pose proof (B a). pose proof (B k). pose proof (B v). pose proof (B f). pose proof (B l).
+  assert (E32 : (x / 32 = d)%N) by (symmetry; apply (N.div_unique x 32 d (b2n a + 2 * b2n k + 4 * b2n v + 8 * b2n f + 16 * b2n l)); unfold x; lia).
+  assert (E16 : (x / 16 = b2n l + 2 * d)%N) by (symmetry; apply (N.div_unique x 16 _ (b2n a + 2 * b2n k + 4 * b2n v + 8 * b2n f)); unfold x; lia).
+  assert (E8 : (x / 8 = b2n f + 2 * (b2n l + 2 * d))%N) by (symmetry; apply (N.div_unique x 8 _ (b2n a + 2 * b2n k + 4 * b2n v)); unfold x; lia).
+  assert (E4 : (x / 4 = b2n v + 2 * (b2n f + 2 * (b2n l + 2 * d)))%N) by (symmetry; apply (N.div_unique x 4 _ (b2n a + 2 * b2n k)); unfold x; lia).
+  assert (E2 : (x / 2 = b2n k + 2 * (b2n v + 2 * (b2n f + 2 * (b2n l + 2 * d))))%N) by (symmetry; apply (N.div_unique x 2 _ (b2n a)); unfold x; lia).
+  rewrite E32, E16, E8, E4, E2, N.mod_small by exact H.
+  assert (O : forall (b : bool) y, N.odd (b2n b + 2 * y) = b).
+  { intros b y. rewrite N.odd_add_mul_2. destruct b; reflexivity. }
+  replace x with (b2n a + 2 * (b2n k + 2 * (b2n v + 2 * (b2n f + 2 * (b2n l + 2 * d)))))%N by (unfold x; lia).
+  rewrite !O. reflexivity.
+Qed.
+
+Lemma so_menv_ok : forall mps depth ep, 1 <= mps -> forall tr,
+  ss_env_ok mps depth ss_init (map (so_in_of ep) tr) = true ->
+  env_ok so_state (so_mstep mps depth ep) (so_menv mps ep) (so_init depth) tr = true.
+Proof.
+  intros mps depth ep H tr. generalize (R_init mps depth H). generalize (so_init depth), ss_init.
+  induction tr as [|w t IH]; intros m s HR HE; [reflexivity|].
+  cbn [map ss_env_ok] in HE. apply andb_true_iff in HE as [He Ht].
+  cbn [env_ok]. unfold so_menv at 1. rewrite (R_env mps depth H m s _ HR), He. cbn [andb so_mstep fst].
+  apply (IH _ (ss_next mps depth s (so_in_of ep w))); [apply R_step; assumption | exact Ht].
+Qed.
+
+Lemma so_run_data : forall mps depth ins m o, In o (so_run mps depth m ins) -> (v_data o < 256)%N.
+Proof.
+  induction ins as [|i t IH]; intros m o H; [contradiction|].
+  cbn [so_run] in H. destruct H as [<-|H]; [|exact (IH _ _ H)].
+  cbn [so_outf v_data]. apply N.mod_lt. discriminate.
+Qed.
+
+(* netlist = model (the tie) composes with model = specification *)
+Theorem so_packed_refines : forall mps depth ep, 1 <= mps -> forall tr,
+  ss_env_ok mps depth ss_init (map (so_in_of ep) tr) = true ->
+  map (fun w => so_norm (so_out_of w)) (run (so_mstep mps depth ep) (so_init depth) tr)
+  = ss_run mps depth ss_init (map (so_in_of ep) tr).
+Proof.
+  intros mps depth ep H tr HE. rewrite so_mrun, so_run_map, map_map.
+  rewrite <- (so_refines mps depth H _ HE).
+  apply map_ext_in. intros o Ho.
+  assert (Hd : (v_data (so_norm o) < 256)%N)
+    by (unfold so_norm; destruct (v_valid o); [exact (so_run_data _ _ _ _ _ Ho) | cbn; lia]).
+  rewrite so_out_of_pack by exact Hd. unfold so_norm. destruct (v_valid o) eqn:E; [rewrite E; reflexivity | reflexivity].
+Qed.
+
+(* ------------------------------------------------------------------------------------------ *)
+(* Properties of the specification itself                                                       *)
+Section Spec.
+  Variable mps depth : nat.
+  Notation next := (ss_next mps depth).
+
+  (* entries handed to the consumer (valid & ready), in order *)
+  Definition ss_popped (s : ss_state) (i : so_in) : list entry :=
+    match t_q s with e :: _ => if u_rdy i then [e] else [] | [] => [] end.
+  Fixpoint ss_delivered (s : ss_state) (ins : list so_in) : list entry :=
+    match ins with
+    | [] => []
+    | i :: t => ss_popped s i ++ ss_delivered (next s i) t
+    end.
+
+  (* the packet whose outcome is acted upon in this cycle is accepted as new data *)
+  Definition ss_accept_now (s : ss_state) : list (list entry) :=
+    match t_ph s with
+    | PReport bs c v =>
+        if t_tgt s && c && negb v && negb (t_lost s) && t_new s then [frame (t_start s) (length bs <? mps) bs] else []
+    | _ => []
+    end.
+  Fixpoint ss_accepted_frames (s : ss_state) (ins : list so_in) : list (list entry) :=
+    match ins with
+    | [] => []
+    | i :: t => ss_accept_now s ++ ss_accepted_frames (next s i) t
+    end.
+
+  Fixpoint ss_run_state (s : ss_state) (ins : list so_in) : ss_state :=
+    match ins with
+    | [] => s
+    | i :: t => ss_run_state (next s i) t
+    end.
+
+  Lemma ss_q_step : forall s i, ss_popped s i ++ t_q (next s i) = t_q s ++ concat (ss_accept_now s).
+  Proof.
+    intros [ph tgt new start n lost full tog act q tent] i. unfold ss_popped, ss_next, ss_accept_now.
+    cbn [t_ph t_tgt t_new t_start t_n t_lost t_full t_tog t_act t_q t_tent].
+    set (q1 := if u_rdy i && negb match q with [] => true | _ => false end then tl q else q).
+    assert (E : (match q with e :: _ => if u_rdy i then [e] else [] | [] => [] end) ++ q1 = q).
+    { unfold q1. destruct q as [|e q], (u_rdy i); reflexivity. }
+    destruct ph as [|bs c v fresh|bs c v|bs c v]; cbn [concat]; rewrite ?app_nil_r; try exact E.
+    destruct (tgt && c && negb v && negb lost && new); cbn [concat]; rewrite ?app_nil_r; try exact E.
+    rewrite app_assoc, E. reflexivity.
+  Qed.
+
+  (* delivered ++ still queued = what was queued ++ the framed payloads of the packets accepted since *)
+  Theorem ss_whole_packets_from : forall ins s,
+    ss_delivered s ins ++ t_q (ss_run_state s ins) = t_q s ++ concat (ss_accepted_frames s ins).
+  Proof.
+    induction ins as [|i t IH]; intro s; cbn [ss_delivered ss_run_state ss_accepted_frames concat].
+    - rewrite app_nil_r. reflexivity.
+    - rewrite <- app_assoc, IH, app_assoc, ss_q_step, concat_app, app_assoc. reflexivity.
+  Qed.
+
+  (* a response to a data packet with the expected toggle: ACK iff no byte of the packet was lost, else NAK;
+     with the previous toggle: ACK (the host missed our ACK), nothing is stored *)
+  Lemma ss_response : forall s i, u_tgt i = true -> u_rfr i = true -> u_ping i = false ->
+    let o := ss_outf mps depth s i in
+    (ss_match s i = true -> v_ack o = negb (ss_lost_now depth s i || t_lost s) /\ v_nak o = (ss_lost_now depth s i || t_lost s)) /\
+    (ss_match s i = false -> v_ack o = true /\ v_nak o = false).
+  Proof.
+    intros s i Ht Hr Hp. unfold ss_outf, StreamOut.ss_accepted. rewrite Ht, Hr, Hp. cbn [andb orb].
+    split; intro Hm; rewrite Hm; cbn [andb negb orb];
+      destruct (t_q s); cbn [v_ack v_nak]; destruct (ss_lost_now depth s i), (t_lost s); split; reflexivity.
+  Qed.
+
+  (* the toggle advances exactly with an ACK for new data *)
+  Lemma ss_toggle : forall s i, u_clr i = false ->
+    t_tog (next s i) = if u_tgt i && u_rfr i && ss_match s i && negb (ss_lost_now depth s i || t_lost s)
+                       then negb (t_tog s) else t_tog s.
+  Proof.
+    intros s i Hc. unfold ss_next, StreamOut.ss_accepted. cbn [t_tog]. rewrite Hc.
+    destruct (u_tgt i), (u_rfr i), (ss_match s i), (ss_lost_now depth s i), (t_lost s); reflexivity.
+  Qed.
+
+  (* entries handed over, read off an output trace: cycles with valid & ready *)
+  Fixpoint so_transfers (ins : list so_in) (outs : list so_out) : list entry :=
+    match ins, outs with
+    | i :: ti, o :: to =>
+        (if v_valid o && u_rdy i then [{| e_data := v_data o; e_first := v_first o; e_last := v_last o |}] else [])
+        ++ so_transfers ti to
+    | _, _ => []
+    end.
+
+  Lemma so_transfers_spec : forall ins s, so_transfers ins (ss_run mps depth s ins) = ss_delivered s ins.
+  Proof.
+    induction ins as [|i t IH]; intro s; [reflexivity|].
+    cbn [ss_run so_transfers ss_delivered]. rewrite IH. f_equal.
+    unfold ss_outf, ss_popped. destruct (t_q s) as [|[d f l] q]; [reflexivity|].
+    cbn [v_valid v_data v_first v_last andb e_data e_first e_last]. reflexivity.
+  Qed.
+
+  Lemma so_transfers_norm : forall ins outs, so_transfers ins (map so_norm outs) = so_transfers ins outs.
+  Proof.
+    induction ins as [|i t IH]; intros [|o outs]; try reflexivity.
+    cbn [map so_transfers]. rewrite IH. f_equal. unfold so_norm. destruct (v_valid o) eqn:E; [rewrite E; reflexivity|].
+    reflexivity.
+  Qed.
+End Spec.
+
+Theorem so_model_stream : forall mps depth, 1 <= mps -> forall ins,
+  ss_env_ok mps depth ss_init ins = true ->
+  so_transfers ins (so_run mps depth (so_init depth) ins) ++ t_q (ss_run_state mps depth ss_init ins)
+  = concat (ss_accepted_frames mps depth ss_init ins).
+Proof.
+  intros mps depth H ins HE.
+  rewrite <- so_transfers_norm, (so_refines mps depth H ins HE), so_transfers_spec.
+  apply (ss_whole_packets_from mps depth ins ss_init).
+Qed.
+
+(* handshakes of the model = handshakes of the specification *)
+Theorem so_model_handshakes : forall mps depth, 1 <= mps -> forall ins,
+  ss_env_ok mps depth ss_init ins = true ->
+  map (fun o => (v_ack o, v_nak o)) (so_run mps depth (so_init depth) ins)
+  = map (fun o => (v_ack o, v_nak o)) (ss_run mps depth ss_init ins).
+Proof.
+  intros mps depth H ins HE. rewrite <- (so_refines mps depth H ins HE), map_map.
+  apply map_ext. intro o. unfold so_norm. destruct (v_valid o); reflexivity.
+Qed.
+
+(* ------------------------------------------------------------------------------------------ *)
+(* The specification as a runtime oracle (tie.cmon): the state of ss_next packed into one N (bounded
+   encodings as in IsoOut_proofs.v; no theorem depends on them).                                *)
+Open Scope N_scope.
+
+Definition enc_list13 (w : N) (cap : nat) (l : list N) : N * N :=
+  (PackN.pk (2 ^ 16) (N.of_nat (length l)) (pack (2 ^ w) (l ++ repeat 0 (cap - length l))), 16 + w * N.of_nat cap).
+Definition dec_list13 (w : N) (cap : nat) (x : N) : list N :=
+  firstn (N.to_nat (N.land x (N.ones 16))) (unpack2 w cap (N.shiftr x 16)).
+Definition dec_entry13 (x : N) : entry :=
+  {| e_data := N.land x (N.ones 8); e_first := N.testbit x 9; e_last := N.testbit x 8 |}.
+
+Definition ss_enc (mps depth : nat) (s : ss_state) : N :=
+  let '(tag, bs, c, v, fresh) :=
+    match t_ph s with
+    | PIdle => (0, [], false, false, false)
+    | POpen bs c v fresh => (1, bs, c, v, fresh)
+    | PEnded bs c v => (2, bs, c, v, false)
+    | PReport bs c v => (3, bs, c, v, false)
+    end in
+  let '(eb, nb_) := enc_list13 8 (mps + 2) bs in
+  let '(eq, _) := enc_list13 10 (S depth) (map enc_entry (t_q s)) in
+  let b := fun x : bool => PackN.pk 2 (b2n x) in
+  b (t_tent s) (b (t_tgt s) (b (t_new s) (b (t_start s) (b (t_lost s) (b (t_full s) (b (t_tog s) (b (t_act s)
+    (PackN.pk 4 tag (b c (b v (b fresh (PackN.pk (2 ^ 16) (N.of_nat (t_n s)) (PackN.pk (2 ^ nb_) eb eq))))))))))))).
+
+Definition ss_dec (mps depth : nat) (x : N) : ss_state :=
+  let tag := N.land (N.shiftr x 8) 3 in
+  let c := N.testbit x 10 in let v := N.testbit x 11 in let fr := N.testbit x 12 in
+  let y := N.shiftr x 13 in
+  let n := N.to_nat (N.land y (N.ones 16)) in let y := N.shiftr y 16 in
+  let nbits := 16 + 8 * N.of_nat (mps + 2) in
+  let bs := dec_list13 8 (mps + 2) (N.land y (N.ones nbits)) in let y := N.shiftr y nbits in
+  let q := map dec_entry13 (dec_list13 10 (S depth) y) in
+  {| t_ph := match tag with 0 => PIdle | 1 => POpen bs c v fr | 2 => PEnded bs c v | _ => PReport bs c v end;
+     t_tgt := N.testbit x 1; t_new := N.testbit x 2; t_start := N.testbit x 3; t_n := n;
+     t_lost := N.testbit x 4; t_full := N.testbit x 5; t_tog := N.testbit x 6; t_act := N.testbit x 7;
+     t_q := q; t_tent := N.testbit x 0 |}.
+
+Definition ss_mon0 : N := 0.
+
+Definition ss_mon (mps depth : nat) (ep : N) (m i o : N) : option (N * bool) :=
+  let s := ss_dec mps depth m in
+  let ii := so_in_of ep i in
+  let short := match t_ph s with POpen bs _ _ _ => (length bs <=? mps)%nat | _ => true end in
+  if ss_env mps s ii && short then
+    Some (ss_enc mps depth (ss_next mps depth s ii),
+          so_out_pack (so_norm (so_out_of o)) =? so_out_pack (ss_outf mps depth s ii))
+  else None.
